@@ -68,14 +68,14 @@ def _result_var(f, call):
     return None
 
 
-def check_rejection(ctx, rep):
+def check_rejection(ctx, rep, RULE="K1"):
     M = ctx.fn("selfies.utils.matching_utils.find_perfect_matching")
     K = ctx.fn(MG + ".kekulize")
     IK = ctx.fn(MG + ".is_kekulized")
     # the matcher really is optional-returning (otherwise the anchor moved)
     rets = [r for r in own_nodes(M.node) if isinstance(r, ast.Return)]
     none_rets = [r for r in rets if r.value is None or (isinstance(r.value, ast.Constant) and r.value.value is None)]
-    rep.ob("K1", bool(none_rets), none_rets[0] if none_rets else M.node, M, construct="matcher reports 'no perfect matching' by returning None",
+    rep.ob(RULE, bool(none_rets), none_rets[0] if none_rets else M.node, M, construct="matcher reports 'no perfect matching' by returning None",
            how="%d such return(s)" % len(none_rets), witness=None if none_rets else "find_perfect_matching has no failure result any more", key="matcher-optional")
     # (a) every use of the matcher's result is dominated by a not-None test
     n_sites = 0
@@ -85,7 +85,7 @@ def check_rejection(ctx, rep):
                 n_sites += 1
                 var = _result_var(f, s.node)
                 if var is None:
-                    rep.ob("K1", False, s.node, f, construct=unparse(s.node)[:60], witness="the matcher's result is used without being bound and tested for None",
+                    rep.ob(RULE, False, s.node, f, construct=unparse(s.node)[:60], witness="the matcher's result is used without being bound and tested for None",
                            key="use/%s/unbound" % f.name, nontrivial=True)
                     continue
                 at = guard_facts(f)
@@ -104,7 +104,7 @@ def check_rejection(ctx, rep):
                             continue          # unreachable
                         if ("notnone", var) not in facts:
                             bad.append(n)
-                rep.ob("K1", not bad, bad[0] if bad else s.node, f, construct="uses of %s = %s(...)" % (var, M.name),
+                rep.ob(RULE, not bad, bad[0] if bad else s.node, f, construct="uses of %s = %s(...)" % (var, M.name),
                        how="every use is dominated by a not-None test", nontrivial=True, key="use/%s" % f.name,
                        witness=None if not bad else "the matcher's result may be None where it is used: a missing matching is not rejected")
                 # (b) in kekulize: success is reported only with a matching, failure whenever it is None
@@ -116,11 +116,11 @@ def check_rejection(ctx, rep):
                                 continue
                             if r.value.value:
                                 ok = ("notnone", var) in facts
-                                rep.ob("K1", ok, r, f, construct="success return after the matching", how="only with a matching",
+                                rep.ob(RULE, ok, r, f, construct="success return after the matching", how="only with a matching",
                                        witness=None if ok else "kekulize() can report success although no perfect matching was found",
                                        key="kekulize/success", nontrivial=True)
                             elif ("isnone", var) in facts:
-                                rep.ob("K1", True, r, f, construct="failure return", how="taken when the matching is None", key="kekulize/failure")
+                                rep.ob(RULE, True, r, f, construct="failure return", how="taken when the matching is None", key="kekulize/failure")
     if not n_sites:
         raise AnalysisError("find_perfect_matching is not called anywhere in the package")
     if K not in {f for f in ctx.db.funcs.values() for s in ctx.cg.sites(f) if M in s.callees}:
@@ -147,7 +147,7 @@ def check_rejection(ctx, rep):
                         why = "a failed kekulization does not end in %s" % enc_err
                 elif isinstance(test_holder, ast.Assert):
                     why = "a failed kekulization only trips an assert"
-                rep.ob("K1", ok, s.node, f, construct="caller of kekulize() in %s" % f.name, how="falsy result -> raise %s on all paths" % enc_err,
+                rep.ob(RULE, ok, s.node, f, construct="caller of kekulize() in %s" % f.name, how="falsy result -> raise %s on all paths" % enc_err,
                        witness=None if ok else why, nontrivial=True, key="caller/%s" % f.name)
     if not n_callers:
         raise AnalysisError("kekulize() has no caller")
@@ -155,9 +155,9 @@ def check_rejection(ctx, rep):
     w = ctx.fn("selfies.utils.smiles_utils.mol_to_smiles")
     guards = [n for n in own_nodes(w.node) if isinstance(n, (ast.Assert, ast.If)) and any(
         isinstance(c, ast.Call) and isinstance(c.func, ast.Attribute) and c.func.attr == IK.name for c in ast.walk(n.test))]
-    rep.ob("K1", bool(guards), guards[0] if guards else w.node, w, construct="writer requires a kekulized graph", how="is_kekulized() tested on entry",
+    rep.ob(RULE, bool(guards), guards[0] if guards else w.node, w, construct="writer requires a kekulized graph", how="is_kekulized() tested on entry",
            witness=None if guards else "mol_to_smiles no longer refuses a graph with aromatic (1.5) bonds", key="writer-guard")
-    rep.floor("K1", 5)
+    rep.floor(RULE, 5)
     return M, K, IK
 
 
@@ -425,7 +425,7 @@ class Emptied(Forward):
                 self.bad.append(node)
 
 
-def check_completion(ctx, rep, K, IK):
+def check_completion(ctx, rep, K, IK, RULE="K4"):
     rets = [r for r in own_nodes(IK.node) if isinstance(r, ast.Return) and r.value is not None]
     field = None
     for r in rets:
@@ -438,7 +438,7 @@ def check_completion(ctx, rep, K, IK):
             a = e.left.args[0]
             if isinstance(a, ast.Attribute) and isinstance(e.comparators[0], ast.Constant) and e.comparators[0].value == 0 and isinstance(e.ops[0], ast.Eq):
                 field = a.attr
-    rep.ob("K4", field is not None, IK.node, IK, construct="is_kekulized()", how="emptiness of the delocalised-subgraph field %s" % field,
+    rep.ob(RULE, field is not None, IK.node, IK, construct="is_kekulized()", how="emptiness of the delocalised-subgraph field %s" % field,
            witness=None if field else "is_kekulized() is no longer the emptiness of the delocalised subgraph", key="is-kekulized")
     if field is None:
         return None
@@ -453,15 +453,15 @@ def check_completion(ctx, rep, K, IK):
             if any(isinstance(n, ast.Attribute) and n.attr == field for n in own_nodes(g.node)):
                 reg.add(api)
     ok = len(reg) >= 2
-    rep.ob("K4", ok, IK.node, IK, construct="aromatic atoms / bonds are registered in %s" % field, how="by code reachable from %s" % sorted(reg),
+    rep.ob(RULE, ok, IK.node, IK, construct="aromatic atoms / bonds are registered in %s" % field, how="by code reachable from %s" % sorted(reg),
            witness=None if ok else "the field is_kekulized() tests is not the one aromatic atoms and bonds are registered in", key="ds-field")
     e = Emptied(K, field, IK.name)
     e.run(False)
     ok = not e.bad and e.n_true >= 1
-    rep.ob("K4", ok, e.bad[0] if e.bad else K.node, K, construct="success returns of kekulize() (%d)" % e.n_true,
+    rep.ob(RULE, ok, e.bad[0] if e.bad else K.node, K, construct="success returns of kekulize() (%d)" % e.n_true,
            how="each is reached only with the delocalised subgraph known empty", nontrivial=True, key="success-empties",
            witness=None if ok else "kekulize() can report success while aromatic (1.5) bonds are still registered")
-    rep.floor("K4", 3)
+    rep.floor(RULE, 3)
     return field
 
 
